@@ -1,5 +1,7 @@
 #!/usr/bin/env python3
-"""tools/try_mutant.py <mutant dir> <worktree> <seed id> [props...]
+"""EVIDENCE-NOTE: the checks run here rewrite /verif/evidence/*.json from a MUTATED tree; re-run `./check Cxx --tier quick` on the
+unchanged tree for every property touched before committing.
+tools/try_mutant.py <mutant dir> <worktree> <seed id> [props...]
 Confirms a seeded change (tests pass with it, its demonstration fails with it and passes without), stores it under
 /verif/seeded/<id>/, then applies it to /repo, runs the given checks (quick tier), and undoes it."""
 import json, os, shutil, subprocess, sys, time
